@@ -50,6 +50,11 @@ static FAKES: [fn() -> u32; 16] = [f0, f1, f2, f3, f4, f5, f6, f7, f8, f9, f10, 
 macro_rules! paste_fake { ($n:literal) => {}; }
 fakes!(0 1 2 3 4 5 6 7 8 9 10 11 12 13 14 15);
 
+#[inline(never)]
+fn refused_fake(x: u32) -> u32 {
+    std::hint::black_box(x)
+}
+
 static INSIDE: AtomicUsize = AtomicUsize::new(0);
 
 pub fn run(a: &Args, out: &mut impl Write) {
@@ -86,6 +91,18 @@ pub fn run(a: &Args, out: &mut impl Write) {
                         log.lock().unwrap().push(format!("A{}i", i));
                         let pre = shared();
                         log.lock().unwrap().push(format!("C{}:{}", i, pre));
+                        if r.chance(1, 4) {
+                            // a refused installation whose panic is caught in place: the injector lives on
+                            // and still holds its turn
+                            let refused = quiet_catch(std::panic::AssertUnwindSafe(|| {
+                                inj.when_called(shadow::func!(fn (shared)() -> u32)).will_execute_raw(shadow::func!(fn (refused_fake)(u32) -> u32));
+                            }));
+                            assert!(refused.is_err());
+                            std::thread::yield_now();
+                            std::thread::sleep(std::time::Duration::from_micros(200));
+                            let again = shared();
+                            log.lock().unwrap().push(format!("C{}:{}", i, again));
+                        }
                         let reps = *r.pick(&[1usize, 1, 1, 2, 32, 64]);
                         // sometimes leave a call-count expectation unmet, so that the release itself
                         // panics (normal scope exit, verification fails)
